@@ -41,6 +41,9 @@ def step (toks : List String) : String :=
         (acc.1 ++ [b], rs')
       else (acc.1 ++ [false], acc.2)) ([], rs0)
     if rs.clean then showBits out else s!"bad-draw-count {rs.verdict}"
+  | ["fieldwit", e, g, h, n] =>
+    -- largest bond index the sampler can ever insert = numBonds - 1 (finding F24: no field bonds for |h| <= 2^-52)
+    toString ((mkModel e g h n).numBonds - 1)
   | "pipeline" :: _ => "same"
   | _ => "bad-op"
 
